@@ -134,6 +134,10 @@ def generate(rng, tier):
             servers.append(chunks)
         cases.append({"query": L(q), "servers": servers, "order": [rng.randrange(nserv) for _ in range(20)], "_meta": meta,
                       "reports": i % 2 == 0})      # the cumulative client prints interim results while partial results keep arriving
+        if i % 5 == 3:
+            # DOS line ends / trailing blanks: the line is trimmed before it is split into fields
+            c = cases[-1]
+            c["servers"] = [[[(bytes.fromhex(l) + rng.choice([b"\r", b"  ", b"\t\r"])).hex() for l in ch] for ch in srvr] for srvr in c["servers"]]
     for k in range(3 if tier == "quick" else 12):
         cases.append({"bb": k})
     return cases
@@ -160,10 +164,11 @@ def _files_vs_central(k):
     out = {}
     for label, files in (("central", central), ("list", ",".join(names)), ("glob", os.path.join(d, "p*.log"))):
         of = os.path.join(env.dir, "out_%s.csv" % label)
+        open(of + ".tmp", "w").write("stale,left,over\n" * 40)        # a longer temporary file left by an interrupted earlier run
         q = "select g,count(v),sum(v),min(v),max(v),avg(v) from . group by g order by g outfile %s logformat generickv" % of
         rc, o, e = env.client("dmap", ["--noColor", "--query", q, "--files", files], timeout=120)
         out[label] = {"rc": rc, "rows": sorted(open(of).read().splitlines()[1:]) if os.path.exists(of) else None}
-    return {"bb": out, "files": nfiles, "lines": len(allines)}
+    return {"bb": out, "files": nfiles, "lines": len(allines), "groups": sorted({l[2] for l in allines})}
 
 
 def run_impl(cases, tier):
@@ -381,6 +386,9 @@ def judge(cases, obs, tier):
             b = o["bb"]
             if any(v["rc"] != 0 or v["rows"] is None for v in b.values()):
                 oracle[i] = "serverless dmap failed: %s" % {k: v["rc"] for k, v in b.items()}
+            elif [r.split(",")[0] for r in b["central"]["rows"]] != o["groups"]:
+                # (one row per group and nothing else: in particular nothing of what an earlier, interrupted run left behind)
+                oracle[i] = "central evaluation: the outfile has rows %s, the input has the groups %s" % (b["central"]["rows"][:6], o["groups"])
             elif b["list"]["rows"] != b["central"]["rows"] or b["glob"]["rows"] != b["central"]["rows"]:
                 which = "glob" if b["glob"]["rows"] != b["central"]["rows"] else "list"
                 oracle[i] = "%d lines in %d files given as a %s: result %s, central evaluation over all lines %s" % (
